@@ -93,7 +93,7 @@ impl Campaign for C01c {
         "C01"
     }
     fn rule(&self) -> &'static str {
-        "seeded scenarios: 1-2 connections, pipeline of n requests answered by handler threads in a generated permutation (virtual delays, begin-after chains or scheduler-decided), actions respond(identity/chunked, 0..40000 B)/into_writer(0..4 parts, +-flush)/drop, short writes and small send windows; non-trivial = at least one response was started while an earlier request of the same connection was still unfinished; distinct = interleaving fingerprint (hash of the (thread, operation, virtual time) sequence)"
+        "seeded scenarios: 1-2 connections, pipeline of n requests answered by handler threads in a generated permutation (virtual delays spread over milliseconds or over several seconds, begin-after chains or scheduler-decided), actions respond(identity/chunked, 0..40000 B)/into_writer(0..4 parts, +-flush)/drop, short writes and small send windows; non-trivial = at least one response was started while an earlier request of the same connection was still unfinished; distinct = interleaving fingerprint (hash of the (thread, operation, virtual time) sequence)"
     }
     fn runs(&self, tier: Tier) -> u64 {
         match tier {
@@ -141,6 +141,8 @@ impl Campaign for C01c {
                 g.shuffle(&mut perm);
             }
             let mode = g.below(3); // 0: virtual delays, 1: begin-after chain, 2: scheduler decides
+            // the answers are spread over milliseconds or over seconds of virtual time
+            let unit = *g.pick(&[MS, MS, 700 * MS, 3 * SEC]);
             for (rank, &r) in perm.iter().enumerate() {
                 let id = &ids[r];
                 let mut p = Program {
@@ -155,7 +157,7 @@ impl Campaign for C01c {
                 }
                 if !single_thread {
                     match mode {
-                        0 => p.delay = rank as u64 * MS,
+                        0 => p.delay = rank as u64 * unit,
                         1 => {
                             if rank > 0 {
                                 p.after = vec![ids[perm[rank - 1]].clone()];
